@@ -2,6 +2,7 @@
 CONSTANTS
   Unit = 1
   MaxV = 32000
+  MaxPos = 1000000
   Vals <- CoarseVals
   SVals <- CoarseSVals
   Sizes <- AllSizes
@@ -17,6 +18,7 @@ CONSTANTS
   Feats <- MixOnly
   Excluded <- NoExcl
   Faults <- NoFaults
+  NGs <- FontNGs
 INIT Init
 NEXT Next
 INVARIANT StackOK
